@@ -219,6 +219,27 @@ def loop_disabled_by_constant(check, j):
     return {"program": Program(steps, outs, gen.BASE_INPUT), "scripts": gen.make_scripts(steps, {}), "input": gen.base_input(rng, 2), "shape": "loop-disabled-by-constant/%r" % (v,), "outcome": {"loop": "disabled"}}
 
 
+def start_failure_stage_reference(check, j):
+    """A's start fails after its deployment succeeded (the deployed plugin answers with a closed stream, garbage, another schema);
+    B refers to A's whole `starting` stage (or its `started` output): that stage never completed, so B must not run."""
+    rng = random.Random(derive_seed(check.seed, "c04-startfail", j))
+    fault = [{"hello": "eof"}, {"schema": "renamed"}, {"hello": "garbage"}, {"schema": "mismatch"}, {"hello": "badversion"}][j % 5]
+    how = ["wait_for-stage", "input-stage", "wait_for-started", "wait_for-stage-in-map"][(j // 5) % 4]
+    A = gen.plugin_step("A", Expr(In("tag")))
+    node = {"wait_for-stage": Expr(Ref("A", "starting")), "input-stage": None, "wait_for-started": Expr(Ref("A", "starting", "started")), "wait_for-stage-in-map": {"s": Expr(Ref("A", "starting"))}}[how]
+    if how == "input-stage":
+        B = gen.plugin_step("B", Expr(In("tag")), extra_input={"a": Expr(Ref("A", "starting"))})
+    else:
+        B = gen.plugin_step("B", Expr(In("tag")), wait_for=node)
+    steps = [A, B]
+    rng.shuffle(steps)
+    prog = Program(steps, {"crashed": {"why": Expr(Ref("A", "crashed", "error", "output"))}, "ran": {"b": gen.tagref("B")}}, gen.BASE_INPUT)
+    scripts = gen.make_scripts(steps, {})
+    scripts["A"]["deploys"] = [{}, dict(fault)]
+    k, v = sorted(fault.items())[0]
+    return {"program": prog, "scripts": scripts, "input": {"tag": "T1"}, "shape": "start-failure/%s=%s/%s" % (k, v, how), "outcome": {"A": "start-failed"}}
+
+
 def run(check):
     check.rule = ("a failing (error/alt/crash/drop/deploy failure) or disabled step placed at every position of 6 shapes (enumerated), the two-hop "
                   "stop-before-start construction, a loop item ending in another declared output with a step needing the loop's success, a step enabled by the enabling result "
@@ -242,6 +263,8 @@ def run(check):
                     targeted.append((g, {"sites": sites, "record": True} if sites else None))
     for j in range(check.pick(18, 90)):
         gs.append(loop_disabled_by_constant(check, j))
+    for j in range(check.pick(20, 80)):
+        gs.append(start_failure_stage_reference(check, j))
     for j in range(check.pick(24, 200)):
         gs.append(loop_other_output(check, j))
         gs.append(chained_enablement(check, j))
